@@ -622,6 +622,9 @@ func (ex *Exec) flush() {
 }
 
 func (ex *Exec) sample(label string, c *term.T) {
+	if c.IsConst() {
+		return // only obligations that need the solver are written out as samples
+	}
 	if len(ex.Samples) < 12 {
 		ex.Samples = append(ex.Samples, fmt.Sprintf("%s: pc(%d conjuncts) => %s", label, len(ex.st.pc), c.Short(160)))
 	}
